@@ -22,7 +22,7 @@ ASSUMPTIONS = [
     "AD kinds use central finite differences (eps = 1e-4 default): tolerance 1e-5 S plus measured quadratic convergence in eps",
     "restricted entry points are driven with spin-independent h1 (the statement's quantifier)",
 ]
-REQUIRED_COUNTERS = {"energy_u": 40, "energy_r": 30, "batched": 10, "ladder": 4}
+REQUIRED_COUNTERS = {"energy_u": 40, "energy_r": 30, "batched": 10, "ladder": 4, "rebuild": 20}
 FLOAT32_KINDS = ("cisd", "cisd_faster", "ucisd")
 AD_KINDS = ("multislater",) + trials.AD_CI
 
@@ -158,4 +158,33 @@ def run_case(case):
                                  "%s/fd-order-%s" % (key0, entry), errs=errs, eps=epss, slope=float(slope)))
             else:
                 events.append(ev("energy/fd-order-" + entry, None, key="%s/fd-order-%s/too-small-to-measure" % (key0, entry), errs=errs))
+    # ---- rebuild: intermediates rebuilt on a ham_data that already carries the intermediates of OTHER trial parameters /
+    # another Hamiltonian (what the AD samplers do after trial.optimize, and rotate_orbs users): nothing stale may survive
+    if case["rep"] <= 1 and entries:
+        from ad_afqmc import hamiltonian
+
+        entry = entries[case["rep"] % len(entries)]
+        h0a, h1a, chola = measure.build_ham(rng, norb, case["nchol"], kind, entry)
+        hd_old = measure.intermediates(t, h0a, h1a, chola)
+        rng2 = np.random.default_rng(case["s"] + 101)
+        t2 = trials.make(kind, norb, (na, nb), rng2, **opts)
+        h0b, h1b, cholb = measure.build_ham(rng2, norb, case["nchol"], kind, entry)
+        hd_re = dict(hd_old)
+        hd_re.update(trials.ham_data_of(h0b, h1b, cholb))
+        try:
+            hd_re = hamiltonian.hamiltonian(norb).build_measurement_intermediates(hd_re, t2["trial"], t2["wave_data"])
+            Hb = F.hamiltonian(h0b, h1b[0], h1b[1], cholb)
+            Sb = measure.ham_scale(h0b, h1b, cholb)
+            d = _draw(rng2, F, t2, kind, norb, na, nb, entry == "r")
+            if d is not None:
+                wu, wd, phi, rel, cond = d
+                ref = np.vdot(t2["psi"], Hb @ phi) / np.vdot(t2["psi"], phi)
+                if entry == "u":
+                    e = complex(t2["trial"]._calc_energy(jnp.array(wu), jnp.array(wd), hd_re, t2["wave_data"]))
+                else:
+                    e = complex(t2["trial"]._calc_energy_restricted(jnp.array(wu), hd_re, t2["wave_data"]))
+                events.append(judge("energy/after-rebuild-" + entry, abs(e - ref), _tol(kind, Sb), "%s/energy-rebuild-%s" % (key0, entry), code=e, ref=ref))
+                cnt["rebuild"] = cnt.get("rebuild", 0) + 1
+        except Exception as exc:
+            events.append(ev("energy/rebuild-raised", False, key="%s/energy-rebuild-exception" % key0, exc=repr(exc)[:300]))
     return {"events": events, "nontrivial": nontrivial > 0, "sample": sample, "counters": cnt}
